@@ -154,3 +154,41 @@ def classify_validation(pkt, settings, spec, too_big):
     if not detail and any(fl.startswith(b"$share") for fl in filters):
         detail = "share-prefix-filter"
     return {"kind": kind, "clause": clause, "detail": detail}
+
+
+def suite_huge_publish(report, tier, seed, prop="C16"):
+    """payload sizes around and beyond what the fixed header (2^28 - 1) and a 32-bit length can express: the size check must
+    hold, whatever the arithmetic width of the implementation.  The payload is described by its length only (`padpayload`):
+    the implementation gets a zero-filled vector whose pages are never touched, the model adds the length."""
+    rng = Rng(seed, "huge-publish")
+    sizes = [0, 10, 65530, 65536, 100000, (1 << 28) - 20, (1 << 28) - 6, (1 << 28) - 5, (1 << 28), (1 << 28) + 100, 300000000,
+             (1 << 32) - 1, (1 << 32), (1 << 32) + 5, (1 << 32) + 70000, (1 << 33) + 7]
+    mpss = [65536, 1 << 20, (1 << 28) - 1, 268435460, 4294967295]
+    reqs, metas = [], []
+    for n in sizes:
+        for mps in mpss:
+            qos = rng.choice([0, 1])
+            pkt = f"publish pid={7 if qos else 0} topic=x61 qos={qos} retain=0"
+            reqs.append(f"validate.outint mps={mps} padpayload={n} | {pkt}")
+            metas.append((n, mps, qos))
+    impl = harness_batch(reqs)
+    model = driver_batch(reqs)
+    corr_ok, mon_ok = True, True
+    for r, (n, mps, qos), a, b in zip(reqs, metas, impl, model):
+        report.case(r)
+        report.traces_validated += 1
+        report.count("huge-publish." + a.split("=")[1].split(":")[0])
+        if a != b:
+            corr_ok = False
+            report.add_finding(Finding(prop, "corr:huge-publish", {"clause": "model-vs-impl", "verb": "validate.outint"},
+                                       "size validation of a huge PUBLISH: implementation and model disagree", [r, "# impl:  " + a, "# model: " + b], has_input=False))
+        # independent arithmetic: fixed header byte + remaining length field + remaining length
+        rl = 2 + 1 + (2 if qos else 0) + 1 + n
+        total = 1 + (1 if rl < 128 else 2 if rl < 16384 else 3 if rl < 2097152 else 4) + rl
+        if a == "res=ok" and (rl > (1 << 28) - 1 or total > mps):
+            mon_ok = False
+            report.add_finding(Finding(prop, "mon:huge-publish", {"clause": "oversize-accepted"},
+                                       f"a PUBLISH of {total} bytes (remaining length {rl}) passes send-time validation although the server's maximum packet size is {mps}"
+                                       + (" and the fixed header cannot express that length" if rl > (1 << 28) - 1 else ""), [r, "# impl: " + a]))
+    report.obligation("corr:huge-publish", "correspondence", corr_ok, f"{len(reqs)} size validations with payloads up to 2^33 bytes")
+    report.obligation("mon:huge-publish", "monitor", mon_ok, "accepted => remaining length expressible and total size within the server's maximum")
